@@ -258,6 +258,16 @@ def check(R):
             r = prims.reach(pa, (to,), cut_blocks=set(wr))
             if set(nx) & r or set(pa.ret_blocks()) & r:
                 bad.append(pa.where(frm))
+        # ... and the tail purge covers every slot the table does not occupy, up to the capacity N of the key range - bounded by nothing the
+        # running process merely remembers (a fresh boot remembers nothing, the store may hold more records than this boot ever wrote)
+        rngs = [(i, st) for i, j, st in pa.stmts() if st[1].get('op') == 'agg' and st[1].get('adt') == 'core::ops::range::Range' and not pa.is_cleanup(i)
+                and any(c.endswith('::len') for c in src_calls(prims.sources(pa, st[1]['a'][0])))]
+        R.floor('tail purge range (len..) in persist_all', len(rngs), 1)
+        for i, st in rngs:
+            end = st[1]['a'][1]
+            es = prims.sources(pa, end) if 'k' not in end else set()
+            R.expect('P10', pa.fn, 'the tail purge runs from the table length to the capacity of the slot range (a constant)', 'k' in end or not (src_fields(es) or src_calls(es)),
+                     'len..N', f'the upper bound derives from {sorted(src_fields(es)) or sorted(src_calls(es))}: records beyond it - written in an earlier boot - are never removed and come back after a restart', pa.where(i))
         R.expect('P3', pa.fn, 'a subscription record that is skipped still has its slot key cleared before the next slot', bool(fail) and not bad, 'to_tlv is_err -> KvBlobStore::remove(key) -> continue',
                  f'from {bad} the loop moves on without store() or remove() of the slot key: the record of a subscription that ended stays on flash and comes back after a restart', bad[0] if bad else '')
 
@@ -307,5 +317,39 @@ def fabric_mutators_persist(R):
         R.expect('P5', h, f'{name} mutates a fabric ({", ".join(m.split("::")[-1] for m in muts)}) and persists it', bool(stored), f'reaches {[c.split("::")[-1] for c in stored]}',
                  f'{name} can call {muts} but never reaches FabricPersist::store / ::remove: the change is acknowledged and lost at the next restart', f'{F.body(h).file}:{F.body(h).line}' if h in F.bodies else '')
     # the groups / group-key / groupcast clusters exist only with the `groups` feature
+    # ... on every path: once a mutating call on the fabric succeeded, the only way to report success without FabricPersist::store is the
+    # fail-safe deferral (is_armed_for / has_pending_noc_for == true: CommissioningComplete writes the record) - not "nothing changed"
+    # guesses about what the mutation did
+    ARMED = ('failsafe::FailSafe::is_armed_for', 'failsafe::FailSafe::has_pending_noc_for', 'failsafe::FailSafe::is_armed')
+    ACCESSORS = ('::fabric_mut', '::get_mut', '::groups_mut', '::fabric', '::get', '::iter_mut')
+    npaths = 0
+    for b in sorted((b for b in F.bodies.values() if b.focus and b.fn.lstrip('<').startswith('dm::clusters::') and '::tests::' not in b.fn
+                     and 'fabric::FabricPersist::store' in b.calls_summary and '::handle_commissioning_complete' not in b.fn), key=lambda b: b.fn):
+        stores = {t.bb for t in b.calls('fabric::FabricPersist::store')}
+        armed = set()
+        for t in b.calls(*ARMED):
+            armed |= prims.track_result(F, b, t).success
+        oks = set(ok_return_bbs(b))
+        if not oks:
+            continue
+        for t in b.calls():
+            cal = t.d.get('r') or t.d.get('f', '')
+            cb = F.bodies.get(cal)
+            if cb is None or cb.argc < 1 or not cb.local_ty(1).startswith('&mut fabric::') or cal.endswith(ACCESSORS) or not cal.startswith('fabric::') or 'FabricPersist' in cal:
+                continue
+            if not cb.rec.get('ret', '').startswith('core::result::Result'):
+                continue
+            tr = prims.track_result(F, b, t)
+            if not tr.success:
+                continue
+            npaths += 1
+            r = set()
+            for (frm, to) in tr.success:
+                r |= prims.reach(b, (to,), cut_blocks=stores, cut_edges=armed)
+            bad = sorted(oks & r)
+            R.expect('P3', b.fn, f'after {cal.split("::")[-2]}::{cal.split("::")[-1]} succeeded, success is reported only after FabricPersist::store - or under the fail-safe deferral',
+                     not bad, 'store on every path, except is_armed_for == true', f'Ok at {[b.where(x) for x in bad]} is reachable after the mutation without a store and without the fail-safe being armed: '
+                     'the change is acknowledged and lost at the next restart', b.where(t.bb))
+    R.floor('mutation -> store paths examined', npaths, 6 if 'groups' in (F.hdr.get('features') or '') else 2)
     R.floor('cluster handlers that mutate a fabric', n, 12 if 'groups' in (F.hdr.get('features') or '') else 4)
 
